@@ -349,6 +349,87 @@ func gen(repo string) (map[string]string, error) {
 	}
 	all = all && resyncLock
 	locks = append(locks, fmt.Sprintf("(%s, %s)", fg.LeanStr("resyncAllocatedIPs.closure"), fg.LeanBool(resyncLock)))
+
+	// nothing that concerns the pod's key (IPAM, apiserver, provider, or a helper doing so) runs before the lockPod call
+	touching := []string{"p.ipam.", "p.Client.", "p.getSubnet(", "p.allocateIP(", "p.syncIP(", "p.podRunning(", "p.releaseIP(",
+		"p.reserveIP(", "p.unbindDpPod(", "p.unbindNoneDpPod(", "p.keyOwnedByRunningPod(", "cloudProvider"}
+	noEarly := true
+	bodies := []struct {
+		p *fg.Parsed
+		b *ast.BlockStmt
+	}{}
+	for _, e := range []ep{{fl, "Filter", nil}, {bd, "Bind", nil}, {bd, "unbind", nil}, {bd, "Release", nil}, {rs, "syncPodIP", nil}} {
+		fn, err := e.p.Fn("FloatingIPPlugin", e.name)
+		if err != nil {
+			return nil, err
+		}
+		bodies = append(bodies, struct {
+			p *fg.Parsed
+			b *ast.BlockStmt
+		}{e.p, fn.Body})
+	}
+	if closure != nil {
+		bodies = append(bodies, struct {
+			p *fg.Parsed
+			b *ast.BlockStmt
+		}{rs, closure.Body})
+	}
+	for _, x := range bodies {
+		li := hasDeferLockPod(x.p, x.b)
+		if li < 0 {
+			noEarly = false
+			continue
+		}
+		for i := 0; i < li; i++ {
+			src := x.p.Src(x.b.List[i])
+			for _, t := range touching {
+				if strings.Contains(src, t) {
+					noEarly = false
+				}
+			}
+		}
+	}
+	fmt.Fprintf(&b, "/-- no IPAM / apiserver / provider access (or helper doing one) precedes `defer p.lockPod(..)()` in the six entry points -/\ndef noKeyAccessBeforePodLock : Bool := %s\n", fg.LeanBool(noEarly && closure != nil))
+
+	// every entry point locks the SAME key: lockPod(name, namespace) = "<namespace>_<name>", called with (…Name, …Namespace)
+	fp, err := fg.ParseFile(repo, dir+"floatingip_plugin.go")
+	if err != nil {
+		return nil, err
+	}
+	lp, err := fp.Fn("FloatingIPPlugin", "lockPod")
+	if err != nil {
+		return nil, err
+	}
+	paramsOK := len(lp.Type.Params.List) == 1 && len(lp.Type.Params.List[0].Names) == 2 &&
+		lp.Type.Params.List[0].Names[0].Name == "name" && lp.Type.Params.List[0].Names[1].Name == "namespace"
+	uniform := paramsOK &&
+		strings.Contains(fp.Src(lp.Body), `key := fmt.Sprintf("%s_%s", namespace, name)`) &&
+		strings.Contains(fp.Src(lp.Body), "p.podLockPool.LockKey(key)")
+	calls, lockKeyCalls := 0, 0
+	for _, f := range []*fg.Parsed{fl, bd, rs, fp, ev} {
+		ast.Inspect(f.File, func(n ast.Node) bool {
+			c, ok := n.(*ast.CallExpr)
+			if !ok {
+				return true
+			}
+			switch f.Src(c.Fun) {
+			case "p.lockPod":
+				calls++
+				if len(c.Args) != 2 {
+					uniform = false
+					break
+				}
+				a0, a1 := f.Src(c.Args[0]), f.Src(c.Args[1])
+				if !(strings.HasSuffix(a0, ".Name") || strings.HasSuffix(a0, ".PodName")) || !strings.HasSuffix(a1, ".Namespace") {
+					uniform = false
+				}
+			case "p.podLockPool.LockKey":
+				lockKeyCalls++
+			}
+			return true
+		})
+	}
+	fmt.Fprintf(&b, "/-- lockPod(name, namespace) locks \"<namespace>_<name>\"; all its call sites (Filter, Bind, unbind, Release, syncPodIP, resync closure) pass (…Name, …Namespace) in that order and nothing else locks the pod pool -/\ndef podLockKeyUniform : Bool := %s\n\n", fg.LeanBool(uniform && calls >= 6 && lockKeyCalls == 1))
 	fmt.Fprintf(&b, "/-- `defer p.lockPod(..)()` dominates the first IPAM use of each entry point -/\ndef underPodLock : List (String × Bool) := [%s]\ndef allUnderPodLock : Bool := %s\n\n",
 		strings.Join(locks, ", "), fg.LeanBool(all))
 
